@@ -442,8 +442,15 @@ def gen_alpha(rng, i):
         e = np.zeros(d)
         e[rng.integers(d)] = [-1.0, 1.0][rng.integers(2)]
         add("axis", e)
-    return {"P0": P0, "B": np.array(B), "kinds": kinds, "expect": np.array(expect), "cls": cls,
-            "bshape": ["2d", "2d", "1d", "3d"][rng.integers(4)]}
+    if i % 40 == 7:
+        # a large call: so many query vectors that (vectors x facets) exceeds 2^20 (internal tables, chunking)
+        kk = min(int(2 ** 20 // max(len(N), 1)) + int(rng.integers(50, 500)), 60000)
+        for v in rng.normal(size=(kk, d)) * 10 ** rng.uniform(-1, 1):
+            add("bulk", v)
+    bshape = ["2d", "2d", "1d", "3d"][rng.integers(4)]
+    if len(B) > 1000 and bshape == "1d":
+        bshape = "2d"           # one call with all vectors (row-by-row calls would never reach the size threshold)
+    return {"P0": P0, "B": np.array(B), "kinds": kinds, "expect": np.array(expect), "cls": cls, "bshape": bshape}
 
 
 def _gauge_lp(V, b):
@@ -461,6 +468,8 @@ def chk_alpha(inp, c):
     P0, B, kinds = np.asarray(inp["P0"], float), np.asarray(inp["B"], float), list(inp["kinds"])
     expect, bshape = np.asarray(inp["expect"], float), inp["bshape"]
     k, d = B.shape
+    if k > 1000:
+        c.cell("alpha:large-call")
     hull = _hull(P0)
     if hull is None:
         c.inconclusive("qhull could not build the input hull")
